@@ -2,8 +2,11 @@ import F3.Model.CodecBytes
 /-! Executable Keccak-256 (legacy padding, as `go-keccak.NewLegacyKeccak256`) and BLAKE2b-256, used by
 the C14 driver to instantiate the abstract hash parameters of `F3.Merkle` / `F3.Payload` so that chain
 keys are recomputed from the chain's content and compared byte-for-byte with the implementation.
-No theorem is about these functions (theorems take collision-freeness of the hash as a hypothesis);
-they are validated against the Go libraries by the correspondence run itself. Core-only. -/
+They are validated against the Go libraries by the correspondence run itself. Proved about them
+(`F3/Proofs/CodecHashLen.lean`): both return 32 values `< 256` on every input; the collision-extraction
+theorems of C14 (`chainKey_collision_extract_real`, `signed_bytes_collision_extract_real`) are stated
+for exactly these two functions. Nothing is (or could be) proved about their collision resistance.
+Core-only. -/
 namespace F3.Codec.Hash
 
 def rotl (x : UInt64) (n : Nat) : UInt64 :=
